@@ -124,36 +124,93 @@ class Mode:
         self.memo[key] = res
         return res
 
-    def _consistent(self, ev: Ev, A: dict) -> bool:
-        t, pol = ev.a, ev.b
-        if op(t) == "param" and t[1] in A:
-            return A[t[1]] == pol
-        if op(t) == "and" and pol is True:
-            return all(not (op(x) == "param" and x[1] in A and A[x[1]] is False) for x in t[1])
-        if op(t) == "or" and pol is False:
-            return all(not (op(x) == "param" and x[1] in A and A[x[1]] is True) for x in t[1])
-        return True
+    # ------------------------------------------------------------------ path feasibility
+    @staticmethod
+    def _canon(t):
+        """(atom key, polarity) of a comparison so that `x is None` and `x is not None` share an atom."""
+        if op(t) == "cmp":
+            neg = {"is not": "is", "!=": "==", "not in": "in", ">=": "<", ">": "<="}
+            if t[1] in neg:
+                return ("cmp", neg[t[1]], t[2], t[3]), False
+            return t, True
+        return t, True
 
-    def _paths(self, fn, s: Summary, paths: list[Path], A, stack, res: ModeResult, handlers: tuple) -> None:
+    def _eval(self, t, A: dict, val: dict):
+        o = op(t)
+        if o == "param" and t[1] in A:
+            return A[t[1]]
+        if o == "const":
+            return bool(t[1])
+        if o in ("not",):
+            return not self._eval(t[1], A, val)
+        if o == "truth":
+            return self._eval(t[1], A, val)
+        if o == "and":
+            return all(self._eval(x, A, val) for x in t[1])
+        if o == "or":
+            return any(self._eval(x, A, val) for x in t[1])
+        key, pol = self._canon(t)
+        v = val[key]
+        return v if pol else not v
+
+    def _atoms(self, t, A: dict, out: list) -> None:
+        o = op(t)
+        if o == "param" and t[1] in A:
+            return
+        if o == "const":
+            return
+        if o in ("not", "truth"):
+            self._atoms(t[1], A, out)
+            return
+        if o in ("and", "or"):
+            for x in t[1]:
+                self._atoms(x, A, out)
+            return
+        key, _ = self._canon(t)
+        if key not in out:
+            out.append(key)
+
+    def feasible(self, guards: list, A: dict) -> bool:
+        """Can all guards (term, polarity) hold together under the flag assignment A?
+
+        Decided by enumerating the truth table of the (<= 10) opaque atoms occurring in the guards;
+        beyond that the path is kept (over-approximation).
+        """
+        atoms: list = []
+        for t, pol in guards:
+            self._atoms(t, A, atoms)
+        if len(atoms) > 10:
+            return True
+        for bits in itertools.product((False, True), repeat=len(atoms)):
+            val = dict(zip(atoms, bits))
+            if all(self._eval(t, A, val) == pol for t, pol in guards):
+                return True
+        return False
+
+    def _paths(self, fn, s: Summary, paths: list[Path], A, stack, res: ModeResult, handlers: tuple, outer_guards: tuple = ()) -> None:
         for p in paths:
             ok = True
             local = ModeResult()
             hs = handlers
+            guards = list(outer_guards)
+            pending: list = []  # (kind, payload) evaluated only if the whole path is feasible
             for ev in p.events:
-                if ev.kind == "guard" and not self._consistent(ev, A):
-                    ok = False
-                    break
+                if ev.kind == "guard":
+                    guards.append((ev.a, ev.b))
+                    if not self.feasible(guards, A):
+                        ok = False
+                        break
                 if ev.kind == "except":
                     hs = hs + (ev,)
-                self._effects(fn, s, ev.line, ev.cov, A, stack, local)
+                self._effects(fn, s, ev.line, ev.cov, A, stack, local, tuple(guards))
                 if ev.kind in ("loop", "while") and ev.body is not None:
-                    self._paths(fn, s, ev.body, A, stack, local, hs)
+                    self._paths(fn, s, ev.body, A, stack, local, hs, tuple(guards))
             if not ok:
                 continue
             o = p.out
             if o is not None and o[0] in ("return", "raise"):
                 cov = o[3] if len(o) > 3 else ()
-                self._effects(fn, s, o[2], cov, A, stack, local)
+                self._effects(fn, s, o[2], cov, A, stack, local, tuple(guards))
                 if o[0] == "return":
                     local.returns.add((o[1], o[2]))
                 else:
@@ -188,7 +245,7 @@ class Mode:
                     return True
         return False
 
-    def _effects(self, fn, s: Summary, line: int, cov: tuple, A, stack, res: ModeResult) -> None:
+    def _effects(self, fn, s: Summary, line: int, cov: tuple, A, stack, res: ModeResult, guards: tuple = ()) -> None:
         for t in s.syn.get(line, ()):
             for c in subterms(t):
                 if op(c) == "call":
@@ -208,11 +265,27 @@ class Mode:
                 elif op(c) == "item":
                     b = c[1]
                     if op(b) == "attr" and b[2] in TABLE_ATTRS and op(b[1]) == "param":
-                        if self._key_is_trie_value(s, line, b[2]):
+                        if self._key_is_trie_value(s, line, b[2]) or self._membership_checked(s, line, b[2], guards):
                             continue
                         if not self._caught("KeyError", cov):
                             res.raises.add(Esc("KeyError", fn.qualname, line, ("subscript", b[2], show(c[2]))))
 
+
+    def _membership_checked(self, s: Summary, line: int, table: str, guards: tuple) -> bool:
+        """`table[k]` is safe on a path that has passed `k in table`."""
+        keys = []
+        for t, ev, _ in s.all_terms():
+            if ev.line != line:
+                continue
+            for c in subterms(t):
+                if op(c) == "item" and op(c[1]) == "attr" and c[1][2] == table:
+                    keys.append((c[2], c[1]))
+        if not keys:
+            return False
+        for k, tab in keys:
+            if not any((g == ("cmp", "in", k, tab) and pol is True) or (g == ("cmp", "not in", k, tab) and pol is False) for g, pol in guards):
+                return False
+        return True
 
     def _key_is_trie_value(self, s: Summary, line: int, table: str) -> bool:
         """Exemption: ``self.prefix_map[parse_uri(..).prefix]`` cannot miss.
